@@ -321,6 +321,9 @@ func suiteC12(cfg Config, res *Result) {
 	defer c12LiveGlobals(res)
 	defer c12ChainMacroClash(res)
 	defer liveGlobals(res, "reference", "c12-globals")
+	defer c12PublicIsACopy(res)
+	defer recursiveMacroNodes(res, "reference", "c12-recursive-scopes", "scope")
+	defer globalsSnapshot(res, "reference", "c12-globals-snapshot")
 	defer reentrancy(res, "reference", "c12-reentrant-execution")
 	defer nilShadowsGlobal(res, "reference", "c12-nil-shadows-global")
 	res.Rule = "generated nestings (depth <= 4) of with / for (body and empty branch) / macro definition+call / set / if / include (with pair, only) over the colliding names a b c plus a global g1, probed with [name={{ name }}] before, inside and after every construct; compared with a reference lexical-environment model and with the Lean model; plus, for every program of this suite and of the general generator, a deep comparison of the caller's Context and the set's Globals before and after execution, and rejection of invalid / macro-clashing context keys; non-trivial = tree with >= 2 binding constructs; distinct by tree"
